@@ -86,6 +86,8 @@ def convert(sub, amount: float, from_unit: str, to_unit: str) -> float:
         raise Reject('non-enzyme measured in U')
     a = per(sub, bf)
     b = per(sub, bt)
+    if a == 0.0 and bf == 'L':
+        return float('nan')   # a volume of a zero-volume substance: the factor is not finite, nothing is claimed
     if a == 0.0:
         return 0.0  # enzyme given in mol: carries nothing
     if b == 0.0:
@@ -373,9 +375,8 @@ def ref_address(rows, cols, item):
         ri = _axis(item, rows)
         ci = list(range(len(cols)))
     elif isinstance(item, tuple):
-        if len(item) == 1 and isinstance(item[0], slice):
-            ri = _axis(item[0], rows)
-            ci = list(range(len(cols)))
+        if len(item) == 1:
+            raise Unjudged('1-tuples are not in the documented grammar')
         elif len(item) == 2:
             for e in item:
                 if isinstance(e, bool):
